@@ -1,7 +1,7 @@
 (* C18P.v — the handler loop over a segmented stream, and the proofs of the C18 statements. *)
 From Coq Require Import Lia ZifyBool List Bool.
 From Model Require Import Base WsFrame.
-From Proofs Require Import Tac WsFrameP.
+From Proofs Require Import Tac WsFrameP WsStreamP.
 Import ListNotations.
 Open Scope Z_scope.
 
@@ -36,11 +36,6 @@ Proof.
 Qed.
 
 (* ---------- one iteration of the loop ---------- *)
-Definition out0 (e : option err) : wsout := {| o_delivered := []; o_written := []; o_error := e |}.
-
-Lemma drain_idle fuel st : frame_available (w_buf st) = false -> drain fuel st = (st, out0 None).
-Proof. intro H. destruct fuel; cbn [drain]; rewrite H; reflexivity. Qed.
-
 Lemma opcode_eqb_eq a b : opcode_eqb a b = true -> a = b.
 Proof. destruct a, b; vm_compute; congruence. Qed.
 
@@ -252,4 +247,27 @@ Proof.
   intros fs encs chunks c HF HE E.
   rewrite (encs_are_rfc fs encs (client_frames_wf fs HF) HE) in E.
   rewrite (C18_stream_any_chunking_proof fs chunks c HF E). cbn. auto.
+Qed.
+
+(* ---------- arbitrary byte streams ---------- *)
+Lemma C18_chunking_irrelevant_proof : forall chunks closed,
+  let '(s1, o1) := ws_feed {| w_buf := []; w_closed := closed |} chunks in
+  let '(s2, o2) := ws_call {| w_buf := []; w_closed := closed |} (concat chunks) in
+  o1 = o2 /\ (o_error o1 = None -> s1 = s2).
+Proof. intros chunks c. apply chunking_irrelevant. reflexivity. Qed.
+
+Lemma C18_parser_is_local_proof : forall buf more,
+  frame_available buf = true ->
+  parse_frame (buf ++ more) = (fst (parse_frame buf), snd (parse_frame buf) ++ more).
+Proof. exact parse_local. Qed.
+
+Lemma ws_call_no_recursion st data : o_error (snd (ws_call st data)) <> Some ERecursion.
+Proof. unfold ws_call. apply drain_no_recursion. cbn [w_buf]. lia. Qed.
+
+Lemma C18_fuel_never_exhausted_proof : forall chunks st, o_error (snd (ws_feed st chunks)) <> Some ERecursion.
+Proof.
+  induction chunks as [|c cs IH]; intro st; cbn [ws_feed]; [cbn; discriminate|].
+  pose proof (ws_call_no_recursion st c) as H. destruct (ws_call st c) as [st1 o1]. cbn [snd] in H.
+  destruct (o_error o1) eqn:E; [cbn [snd]; congruence|].
+  specialize (IH st1). destruct (ws_feed st1 cs) as [st2 o2]. exact IH.
 Qed.
